@@ -1,15 +1,1605 @@
-//! C14 — engine not implemented yet.
+//! C14 — the language server keeps the same document text as the editor (core X2: explicit-state
+//! search over edit histories; a state = the history replayed on the REAL `trust-lsp` binary over
+//! stdio JSON-RPC + the reference editor model below).
+//!
+//! Oracle clauses
+//!  * `text`     — document A (didOpen(s0) + the history of didChange notifications) and document B
+//!                 (a fresh URI opened with the text the reference editor holds after the same
+//!                 history) must give identical `formatting`, `semanticTokens/full`,
+//!                 `documentSymbol` and pull `textDocument/diagnostic` answers (URIs/result ids
+//!                 removed). A mismatch is only reported when it reproduces on a second replay
+//!                 with fresh URIs (guards against timing dependent answers).
+//!  * `position` — offset<->position identity: every position the server reports for a token of
+//!                 `trust_syntax::lex(text)` / an error of `trust_syntax::parse(text)` must be the
+//!                 UTF-16 position the reference editor computes for that byte offset.
+//!
+//! Reference editor (`Ed`): a `String` plus the LSP 3.17 rules: position = (line, UTF-16 code unit
+//! offset in the line); lines end at "\n", "\r\n" or "\r"; a character offset greater than the line
+//! length is clamped to the line length. Nothing is taken from /repo.
+//!
+//! Observability: no LSP request returns the raw document, so after the four requests one
+//! unformatted ASCII line is inserted at 0:0 (`PROBE`) and `formatting` is asked again: the answer
+//! then echoes comment/string lines verbatim. What stays invisible: which line terminator a line
+//! has (the formatter normalises them) and whitespace inside reformatted lines that does not move
+//! a token. Because a divergence can be latent, the signature is not computed from the last
+//! notification blindly: `blame` searches the culprit change by counterfactual replays.
+//!
+//! Signatures: `C14/text/<kind>/<feature>` (kind of the culprit: range | full | multi-range |
+//! multi-full | multi-mixed; feature: lone-cr > past-eol:<eol> > astral > bmp > crlf > plain, or
+//! `batch` when only batching explains it), `C14/position/<answer field>/<feature of the line>`,
+//! `C14/hang|server-died/<stage>/<kind>/<feature>`.
+//!
+//! Left out of the alphabet on purpose (expected behaviour not defined by LSP 3.17):
+//!  * positions whose line is past the last line of the document;
+//!  * positions inside a surrogate pair; ranges with start > end;
+//!  * `rangeLength` (deprecated) is never sent.
 
 use crate::fw::*;
 use crate::iso::WorkerFn;
-use serde_json::Value;
+use crate::x2;
+use serde_json::{json, Value};
+use std::collections::HashMap;
+use std::io::{BufRead, BufReader, Write};
+use std::process::{Child, ChildStdin, Command, Stdio};
+use std::sync::atomic::{AtomicU64, Ordering};
+use std::sync::mpsc;
+use std::sync::{Arc, Mutex};
+use std::time::{Duration, Instant};
+use trust_syntax::lexer::{lex, TokenKind};
+use trust_syntax::parser::parse;
 
-pub fn run(_ctx: &Ctx) -> EngineResult {
-    machinery("engine C14 not implemented")
+// ---------------------------------------------------------------------------------------------
+// Reference editor model (LSP 3.17 text synchronisation on UTF-16 code units)
+// ---------------------------------------------------------------------------------------------
+
+#[derive(Clone, Copy, Debug, PartialEq, Eq)]
+enum Eol {
+    Lf,
+    CrLf,
+    Cr,
+    Eof,
 }
 
-pub fn check_case(_case: &Value) -> Vec<Violation> {
-    Vec::new()
+impl Eol {
+    fn name(self) -> &'static str {
+        match self {
+            Eol::Lf => "lf",
+            Eol::CrLf => "crlf",
+            Eol::Cr => "cr",
+            Eol::Eof => "eof",
+        }
+    }
+}
+
+#[derive(Clone, Copy, Debug)]
+struct Line {
+    /// byte offset of the first character of the line
+    start: usize,
+    /// byte offset of the end of the line content (start of its terminator)
+    end: usize,
+    eol: Eol,
+}
+
+/// Lines of `text`; always at least one (the last one is terminated by EOF).
+fn lines_of(text: &str) -> Vec<Line> {
+    let b = text.as_bytes();
+    let mut out = Vec::new();
+    let mut start = 0usize;
+    let mut i = 0usize;
+    while i < b.len() {
+        match b[i] {
+            b'\n' => {
+                out.push(Line { start, end: i, eol: Eol::Lf });
+                i += 1;
+                start = i;
+            }
+            b'\r' => {
+                if i + 1 < b.len() && b[i + 1] == b'\n' {
+                    out.push(Line { start, end: i, eol: Eol::CrLf });
+                    i += 2;
+                } else {
+                    out.push(Line { start, end: i, eol: Eol::Cr });
+                    i += 1;
+                }
+                start = i;
+            }
+            _ => i += 1,
+        }
+    }
+    out.push(Line { start, end: b.len(), eol: Eol::Eof });
+    out
+}
+
+fn utf16_len(s: &str) -> u32 {
+    s.chars().map(|c| c.len_utf16() as u32).sum()
+}
+
+/// LSP position -> byte offset. `None`: line past the document or column inside a surrogate pair
+/// (never generated). A column past the end of the line is clamped (LSP 3.17, `Position`).
+fn pos_to_off(text: &str, lines: &[Line], line: u32, col: u32) -> Option<usize> {
+    let l = lines.get(line as usize)?;
+    let mut u = 0u32;
+    for (i, c) in text[l.start..l.end].char_indices() {
+        if u == col {
+            return Some(l.start + i);
+        }
+        if u > col {
+            return None;
+        }
+        u += c.len_utf16() as u32;
+    }
+    if u > col {
+        return None; // inside the last surrogate pair
+    }
+    Some(l.end)
+}
+
+/// Byte offset (a character boundary, not inside a "\r\n") -> LSP position.
+fn off_to_pos(text: &str, lines: &[Line], off: usize) -> (u32, u32) {
+    // last line whose start is <= off
+    let idx = match lines.binary_search_by(|l| l.start.cmp(&off)) {
+        Ok(i) => i,
+        Err(i) => i - 1,
+    };
+    let l = &lines[idx];
+    let end = off.min(l.end);
+    (idx as u32, utf16_len(&text[l.start..end]))
+}
+
+#[derive(Clone, Debug, PartialEq, Eq, Hash)]
+pub enum Change {
+    Range { sl: u32, sc: u32, el: u32, ec: u32, text: String },
+    Full { text: String },
+}
+
+impl Change {
+    fn to_lsp(&self) -> Value {
+        match self {
+            Change::Range { sl, sc, el, ec, text } => json!({
+                "range": {"start": {"line": sl, "character": sc}, "end": {"line": el, "character": ec}},
+                "text": text
+            }),
+            Change::Full { text } => json!({ "text": text }),
+        }
+    }
+    fn from_lsp(v: &Value) -> Option<Change> {
+        let text = v["text"].as_str()?.to_string();
+        if v.get("range").map(|r| !r.is_null()).unwrap_or(false) {
+            let g = |a: &str, b: &str| v["range"][a][b].as_u64().map(|x| x as u32);
+            Some(Change::Range {
+                sl: g("start", "line")?,
+                sc: g("start", "character")?,
+                el: g("end", "line")?,
+                ec: g("end", "character")?,
+                text,
+            })
+        } else {
+            Some(Change::Full { text })
+        }
+    }
+}
+
+/// The editor applies one content change. `None` = the change is outside the defined part of the
+/// protocol (never generated by the enumerators; a replay file could contain one).
+fn ed_apply(text: &str, ch: &Change) -> Option<String> {
+    match ch {
+        Change::Full { text } => Some(text.clone()),
+        Change::Range { sl, sc, el, ec, text: ins } => {
+            let lines = lines_of(text);
+            let s = pos_to_off(text, &lines, *sl, *sc)?;
+            let e = pos_to_off(text, &lines, *el, *ec)?;
+            if s > e {
+                return None;
+            }
+            let mut out = String::with_capacity(text.len() + ins.len());
+            out.push_str(&text[..s]);
+            out.push_str(ins);
+            out.push_str(&text[e..]);
+            Some(out)
+        }
+    }
+}
+
+fn has_lone_cr(text: &str) -> bool {
+    lines_of(text).iter().any(|l| l.eol == Eol::Cr)
+}
+
+/// Smallest discriminating feature of a place in a text, by priority: a lone CR anywhere before
+/// (line numbering), an astral character before it on the line, a BMP non-ASCII character before
+/// it on the line, a CRLF before it, else plain.
+fn place_feature(text: &str, line_start: usize, upto: usize) -> &'static str {
+    let upto = upto.min(text.len());
+    let line_start = line_start.min(upto);
+    if has_lone_cr(&text[..upto]) {
+        return "lone-cr";
+    }
+    let seg = &text[line_start..upto];
+    if seg.chars().any(|c| c.len_utf16() == 2) {
+        "astral"
+    } else if !seg.is_ascii() {
+        "bmp"
+    } else if text[..upto].contains("\r\n") {
+        "crlf"
+    } else {
+        "plain"
+    }
+}
+
+fn feature_rank(f: &str) -> u32 {
+    match f {
+        "lone-cr" => 6,
+        f if f.starts_with("past-eol") => 5,
+        "astral" => 4,
+        "bmp" => 3,
+        "crlf" => 2,
+        _ => 1,
+    }
+}
+
+/// Feature of one LSP position used by a change, on the editor's text at that moment.
+fn position_feature(text: &str, lines: &[Line], line: u32, col: u32) -> String {
+    let Some(l) = lines.get(line as usize) else { return "no-such-line".into() };
+    let len = utf16_len(&text[l.start..l.end]);
+    let base = place_feature(text, l.start, pos_to_off(text, lines, line, col).unwrap_or(l.end));
+    if col > len && feature_rank(base) < 5 {
+        if l.eol == Eol::Cr {
+            return "lone-cr".into();
+        }
+        return format!("past-eol:{}", l.eol.name());
+    }
+    base.to_string()
+}
+
+/// Kind + highest-priority feature of a notification (evaluated on the evolving editor text).
+fn notification_class(before: &str, note: &[Change]) -> (String, String) {
+    let ranges = note.iter().filter(|c| matches!(c, Change::Range { .. })).count();
+    let fulls = note.len() - ranges;
+    let kind = match (ranges, fulls, note.len()) {
+        (1, 0, 1) => "range",
+        (0, 1, 1) => "full",
+        (_, 0, _) => "multi-range",
+        (0, _, _) => "multi-full",
+        _ => "multi-mixed",
+    };
+    let mut best = "plain".to_string();
+    let mut cur = before.to_string();
+    for ch in note {
+        if let Change::Range { sl, sc, el, ec, .. } = ch {
+            let lines = lines_of(&cur);
+            for (l, c) in [(*sl, *sc), (*el, *ec)] {
+                let f = position_feature(&cur, &lines, l, c);
+                if feature_rank(&f) > feature_rank(&best) {
+                    best = f;
+                }
+            }
+        }
+        match ed_apply(&cur, ch) {
+            Some(n) => cur = n,
+            None => break,
+        }
+    }
+    (kind.to_string(), best)
+}
+
+/// The same notification with every column past the end of its line replaced by the line length
+/// (the position LSP 3.17 defines it to mean). Used to decide whether a mismatch is caused by the
+/// clamping rule or by something else in the notification.
+fn clamp_note(before: &str, note: &[Change]) -> Vec<Change> {
+    let mut cur = before.to_string();
+    let mut out = Vec::new();
+    for ch in note {
+        let c2 = match ch {
+            Change::Range { sl, sc, el, ec, text } => {
+                let lines = lines_of(&cur);
+                let cl = |l: u32, c: u32| match lines.get(l as usize) {
+                    Some(ln) => c.min(utf16_len(&cur[ln.start..ln.end])),
+                    None => c,
+                };
+                Change::Range { sl: *sl, sc: cl(*sl, *sc), el: *el, ec: cl(*el, *ec), text: text.clone() }
+            }
+            f => f.clone(),
+        };
+        if let Some(n) = ed_apply(&cur, &c2) {
+            cur = n;
+        }
+        out.push(c2);
+    }
+    out
+}
+
+// ---------------------------------------------------------------------------------------------
+// JSON-RPC / stdio client for the real `trust-lsp` binary
+// ---------------------------------------------------------------------------------------------
+
+fn lsp_bin() -> String {
+    std::env::var("TV_LSP_BIN").unwrap_or_else(|_| "/repo/target/debug/trust-lsp".to_string())
+}
+
+#[derive(Debug, Clone, PartialEq, Eq)]
+enum Fail {
+    /// no answer within the limit (server hung)
+    Timeout(String),
+    /// the server process closed its stdout / could not be written to
+    Died(String),
+}
+
+struct Server {
+    child: Child,
+    stdin: Arc<Mutex<ChildStdin>>,
+    rx: mpsc::Receiver<Value>,
+    next_id: u64,
+    broken: bool,
+}
+
+fn write_msg(stdin: &Mutex<ChildStdin>, msg: &Value) -> std::io::Result<()> {
+    let body = serde_json::to_vec(msg).unwrap();
+    let mut s = stdin.lock().unwrap();
+    write!(s, "Content-Length: {}\r\n\r\n", body.len())?;
+    s.write_all(&body)?;
+    s.flush()
+}
+
+fn read_msg(r: &mut impl BufRead) -> Option<Value> {
+    let mut len: Option<usize> = None;
+    loop {
+        let mut line = String::new();
+        if r.read_line(&mut line).ok()? == 0 {
+            return None;
+        }
+        let t = line.trim();
+        if t.is_empty() {
+            if len.is_some() {
+                break;
+            }
+            continue;
+        }
+        let lower = t.to_ascii_lowercase();
+        if let Some(v) = lower.strip_prefix("content-length:") {
+            len = v.trim().parse().ok();
+        }
+    }
+    let mut body = vec![0u8; len?];
+    r.read_exact(&mut body).ok()?;
+    serde_json::from_slice(&body).ok()
+}
+
+const REQ_TIMEOUT: Duration = Duration::from_secs(10);
+
+impl Server {
+    fn spawn() -> Result<Server, String> {
+        let bin = lsp_bin();
+        let mut child = Command::new(&bin)
+            .stdin(Stdio::piped())
+            .stdout(Stdio::piped())
+            .stderr(Stdio::null())
+            .env("RUST_LOG", "error")
+            .env("NO_COLOR", "1")
+            .spawn()
+            .map_err(|e| format!("cannot start {bin}: {e} (build it: cd /repo && cargo build --offline -p trust-lsp --bin trust-lsp, or set TV_LSP_BIN)"))?;
+        let stdin = Arc::new(Mutex::new(child.stdin.take().unwrap()));
+        let stdout = child.stdout.take().unwrap();
+        let (tx, rx) = mpsc::channel();
+        let wr = Arc::clone(&stdin);
+        std::thread::spawn(move || {
+            let mut r = BufReader::new(stdout);
+            while let Some(m) = read_msg(&mut r) {
+                let has_method = m.get("method").is_some();
+                let has_id = m.get("id").map(|i| !i.is_null()).unwrap_or(false);
+                if has_method && has_id {
+                    // server -> client request: answer so that the server never blocks on us
+                    let result = match m["method"].as_str() {
+                        Some("workspace/configuration") => {
+                            let n = m["params"]["items"].as_array().map(|a| a.len()).unwrap_or(0);
+                            Value::Array(vec![Value::Null; n])
+                        }
+                        Some("workspace/workspaceFolders") => Value::Null,
+                        Some("workspace/applyEdit") => json!({"applied": false}),
+                        _ => Value::Null,
+                    };
+                    if write_msg(&wr, &json!({"jsonrpc":"2.0","id":m["id"],"result":result})).is_err() {
+                        break;
+                    }
+                } else if has_method {
+                    // notification (logMessage, publishDiagnostics, telemetry …): not used
+                } else if tx.send(m).is_err() {
+                    break;
+                }
+            }
+        });
+        let mut s = Server { child, stdin, rx, next_id: 0, broken: false };
+        // `workspace.diagnostic.refreshSupport` switches the server to pull diagnostics, which are
+        // answered synchronously (published diagnostics would be timing dependent).
+        let init = s.request(
+            "initialize",
+            json!({
+                "processId": null,
+                "rootUri": null,
+                "capabilities": {
+                    "workspace": {"diagnostic": {"refreshSupport": true}},
+                    "textDocument": {"diagnostic": {"dynamicRegistration": false}}
+                }
+            }),
+        );
+        match init {
+            Ok(v) => {
+                if v.get("capabilities").is_none() {
+                    return Err(format!("initialize answered without capabilities: {v}"));
+                }
+                if let Some(enc) = v["capabilities"].get("positionEncoding").and_then(Value::as_str) {
+                    if enc != "utf-16" {
+                        return Err(format!("server chose positionEncoding {enc} although the client did not offer it"));
+                    }
+                }
+                if v["capabilities"].get("diagnosticProvider").map(|d| d.is_null()).unwrap_or(true) {
+                    return Err("server did not enable pull diagnostics".into());
+                }
+            }
+            Err(f) => return Err(format!("initialize failed: {f:?}")),
+        }
+        s.notify("initialized", json!({})).map_err(|f| format!("initialized failed: {f:?}"))?;
+        Ok(s)
+    }
+
+    fn notify(&mut self, method: &str, params: Value) -> Result<(), Fail> {
+        write_msg(&self.stdin, &json!({"jsonrpc":"2.0","method":method,"params":params})).map_err(|e| {
+            self.broken = true;
+            Fail::Died(format!("write {method}: {e}"))
+        })
+    }
+
+    /// One request in flight at a time. JSON-RPC errors are answers (`{"__error": code}`).
+    fn request(&mut self, method: &str, params: Value) -> Result<Value, Fail> {
+        self.next_id += 1;
+        let id = self.next_id;
+        write_msg(&self.stdin, &json!({"jsonrpc":"2.0","id":id,"method":method,"params":params})).map_err(|e| {
+            self.broken = true;
+            Fail::Died(format!("write {method}: {e}"))
+        })?;
+        let deadline = Instant::now() + REQ_TIMEOUT;
+        loop {
+            let left = deadline.saturating_duration_since(Instant::now());
+            match self.rx.recv_timeout(left) {
+                Ok(m) => {
+                    if m["id"].as_u64() != Some(id) {
+                        continue; // stale answer of an earlier, timed-out request
+                    }
+                    if let Some(e) = m.get("error") {
+                        return Ok(json!({"__error": e["code"], "message": e["message"]}));
+                    }
+                    return Ok(m.get("result").cloned().unwrap_or(Value::Null));
+                }
+                Err(mpsc::RecvTimeoutError::Timeout) => {
+                    self.broken = true;
+                    return Err(Fail::Timeout(method.to_string()));
+                }
+                Err(mpsc::RecvTimeoutError::Disconnected) => {
+                    self.broken = true;
+                    let st = self.child.try_wait().ok().flatten().map(|s| format!("{s}")).unwrap_or_else(|| "stdout closed".into());
+                    return Err(Fail::Died(format!("during {method}: {st}")));
+                }
+            }
+        }
+    }
+}
+
+impl Drop for Server {
+    fn drop(&mut self) {
+        let _ = self.child.kill();
+        let _ = self.child.wait();
+    }
+}
+
+/// Servers are checked out for one history at a time (par_map threads are short-lived).
+struct Pool {
+    idle: Mutex<Vec<Server>>,
+    spawned: AtomicU64,
+}
+
+impl Pool {
+    fn new() -> Pool {
+        Pool { idle: Mutex::new(Vec::new()), spawned: AtomicU64::new(0) }
+    }
+    fn get(&self) -> Result<Server, String> {
+        if let Some(s) = self.idle.lock().unwrap().pop() {
+            return Ok(s);
+        }
+        self.spawned.fetch_add(1, Ordering::Relaxed);
+        Server::spawn()
+    }
+    fn put(&self, s: Server) {
+        if !s.broken {
+            self.idle.lock().unwrap().push(s);
+        }
+    }
+}
+
+static URI_COUNTER: AtomicU64 = AtomicU64::new(0);
+
+fn fresh_uri() -> String {
+    let n = URI_COUNTER.fetch_add(1, Ordering::Relaxed);
+    format!("file:///tmp/tv-c14/p{}/h{}.st", std::process::id(), n)
+}
+
+// ---------------------------------------------------------------------------------------------
+// Observations: the four position-carrying answers of one document
+// ---------------------------------------------------------------------------------------------
+
+const REQUESTS: [&str; 5] = ["formatting", "semanticTokens", "documentSymbol", "diagnostic", "formatting-after-probe"];
+
+/// Observability probe, sent after the four requests: one unformatted ASCII line inserted at 0:0
+/// (a position every conversion agrees on). The formatter then has something to change and
+/// answers with the whole document, which echoes the server's copy of comment / string lines
+/// verbatim — without it a divergence inside a comment of an already formatted text would stay
+/// hidden until a later edit and be blamed on that edit.
+const PROBE: &str = "tvprobe  :=  1;\n";
+
+#[derive(Clone, Debug, PartialEq)]
+struct Answers {
+    /// normalised results, in the order of `REQUESTS`
+    r: [Value; 5],
+}
+
+/// Removes what legitimately depends on the URI or on server-side counters.
+fn strip(v: &Value) -> Value {
+    match v {
+        Value::Object(m) => Value::Object(
+            m.iter()
+                .filter(|(k, _)| k.as_str() != "uri" && k.as_str() != "resultId")
+                .map(|(k, x)| (k.clone(), strip(x)))
+                .collect(),
+        ),
+        Value::Array(a) => Value::Array(a.iter().map(strip).collect()),
+        _ => v.clone(),
+    }
+}
+
+fn query_all(s: &mut Server, uri: &str) -> Result<Answers, Fail> {
+    let td = json!({"uri": uri});
+    let fmt = s.request(
+        "textDocument/formatting",
+        json!({"textDocument": td, "options": {"tabSize": 4, "insertSpaces": true}}),
+    )?;
+    let sem = s.request("textDocument/semanticTokens/full", json!({"textDocument": td}))?;
+    let sym = s.request("textDocument/documentSymbol", json!({"textDocument": td}))?;
+    let diag = s.request("textDocument/diagnostic", json!({"textDocument": td}))?;
+    s.notify(
+        "textDocument/didChange",
+        json!({"textDocument": {"uri": uri, "version": 1_000_000}, "contentChanges": [
+            {"range": {"start": {"line": 0, "character": 0}, "end": {"line": 0, "character": 0}}, "text": PROBE}]}),
+    )?;
+    let fmt2 = s.request(
+        "textDocument/formatting",
+        json!({"textDocument": td, "options": {"tabSize": 4, "insertSpaces": true}}),
+    )?;
+    Ok(Answers { r: [strip(&fmt), strip(&sem), strip(&sym), strip(&diag), strip(&fmt2)] })
+}
+
+fn open_doc(s: &mut Server, uri: &str, text: &str) -> Result<(), Fail> {
+    s.notify(
+        "textDocument/didOpen",
+        json!({"textDocument": {"uri": uri, "languageId": "structured-text", "version": 1, "text": text}}),
+    )
+}
+
+/// Closes the document and removes it from the server's project (watched-file deletion), so that
+/// the next document is analysed alone (no cross-file interference between histories).
+fn drop_doc(s: &mut Server, uri: &str) -> Result<(), Fail> {
+    s.notify("textDocument/didClose", json!({"textDocument": {"uri": uri}}))?;
+    s.notify("workspace/didChangeWatchedFiles", json!({"changes": [{"uri": uri, "type": 3}]}))
+}
+
+/// Document A: open `initial`, feed the notifications, ask. Every request is sent after the
+/// notifications on the same connection, hence processed after them.
+fn observe_incremental(s: &mut Server, initial: &str, history: &[Vec<Change>]) -> Result<Answers, Fail> {
+    let uri = fresh_uri();
+    open_doc(s, &uri, initial)?;
+    for (i, note) in history.iter().enumerate() {
+        let changes: Vec<Value> = note.iter().map(Change::to_lsp).collect();
+        s.notify(
+            "textDocument/didChange",
+            json!({"textDocument": {"uri": uri, "version": 2 + i as u64}, "contentChanges": changes}),
+        )?;
+    }
+    let a = query_all(s, &uri)?;
+    drop_doc(s, &uri)?;
+    Ok(a)
+}
+
+/// Document B: a fresh URI opened with `text` in one didOpen.
+fn observe_fresh(s: &mut Server, text: &str) -> Result<Answers, Fail> {
+    observe_incremental(s, text, &[])
+}
+
+fn clip(s: &str, n: usize) -> String {
+    let mut out: String = s.chars().take(n).collect();
+    if s.chars().count() > n {
+        out.push('…');
+    }
+    out
+}
+
+// ---------------------------------------------------------------------------------------------
+// Position clause: offset <-> position identity on the answers for a text
+// ---------------------------------------------------------------------------------------------
+
+struct Tok {
+    start: usize,
+    end: usize,
+    ws: bool,
+}
+
+fn text_feature_for_line(text: &str, lines: &[Line], line: u32) -> &'static str {
+    if has_lone_cr(text) {
+        return "lone-cr"; // line numbering itself is in question
+    }
+    match lines.get(line as usize) {
+        Some(l) => place_feature(text, l.start, l.end),
+        None => {
+            if has_lone_cr(text) {
+                "lone-cr"
+            } else {
+                "no-such-line"
+            }
+        }
+    }
+}
+
+fn get_pos(v: &Value) -> Option<(u32, u32)> {
+    Some((v["line"].as_u64()? as u32, v["character"].as_u64()? as u32))
+}
+
+/// Returns (clause, feature, description) for every reported position that is not the UTF-16
+/// position of the offset it stands for. Assumptions (checked by reading the handlers, and
+/// validated on every ASCII text where all column units coincide): a semantic token stands for one
+/// lexer token; a symbol range starts at a token start and ends at a token end; a formatting
+/// answer consisting of one edit from 0:0 to the last line replaces the whole document; the
+/// diagnostics contain the parser's errors with their message unchanged.
+fn position_checks(text: &str, ans: &Answers) -> Vec<(String, String, String)> {
+    let mut out: Vec<(String, String, String)> = Vec::new();
+    let lines = lines_of(text);
+    let toks: Vec<Tok> = lex(text)
+        .iter()
+        .map(|t| Tok {
+            start: u32::from(t.range.start()) as usize,
+            end: u32::from(t.range.end()) as usize,
+            ws: t.kind == TokenKind::Whitespace,
+        })
+        .collect();
+    let mut starts: HashMap<(u32, u32), usize> = HashMap::new();
+    let mut ends: HashMap<(u32, u32), usize> = HashMap::new();
+    for (i, t) in toks.iter().enumerate() {
+        if t.ws || !text.is_char_boundary(t.start) || !text.is_char_boundary(t.end) {
+            continue;
+        }
+        starts.entry(off_to_pos(text, &lines, t.start)).or_insert(i);
+        ends.insert(off_to_pos(text, &lines, t.end), i);
+    }
+
+    // semantic tokens: (deltaLine, deltaStart, length, type, modifiers)*
+    if let Some(data) = ans.r[1].get("data").and_then(Value::as_array) {
+        let d: Vec<u32> = data.iter().map(|x| x.as_u64().unwrap_or(0) as u32).collect();
+        let (mut line, mut col) = (0u32, 0u32);
+        let mut start_reported = false;
+        let mut len_reported = false;
+        for q in d.chunks(5) {
+            if q.len() < 5 {
+                break;
+            }
+            if q[0] > 0 {
+                line += q[0];
+                col = q[1];
+            } else {
+                col += q[1];
+            }
+            // a reported token matches a lexer token if it starts at its UTF-16 position and its
+            // length is the token's length in SOME unit; the unit is judged separately
+            let cand = starts.get(&(line, col)).map(|&i| &toks[i]);
+            let matched = cand.filter(|t| {
+                let body = &text[t.start..t.end];
+                let multi = body.contains('\n') || body.contains('\r');
+                multi || q[2] == utf16_len(body) || q[2] as usize == body.len() || q[2] as usize == body.chars().count()
+            });
+            match matched {
+                None => {
+                    if !start_reported {
+                        start_reported = true;
+                        let f = text_feature_for_line(text, &lines, line);
+                        out.push((
+                            "semtok-start".into(),
+                            f.into(),
+                            format!("semantic token reported at {line}:{col} (length {}), but no lexer token of the text of that length starts at that UTF-16 position", q[2]),
+                        ));
+                    }
+                }
+                Some(t) => {
+                    let body = &text[t.start..t.end];
+                    let multi = body.contains('\n') || body.contains('\r');
+                    if !multi && !len_reported && q[2] != utf16_len(body) {
+                        len_reported = true;
+                        let f = if body.chars().any(|c| c.len_utf16() == 2) { "astral" } else { "bmp" };
+                        out.push((
+                            "semtok-length".into(),
+                            f.into(),
+                            format!("semantic token {:?} at {line}:{col} reported with length {} but it spans {} UTF-16 code units", clip(body, 20), q[2], utf16_len(body)),
+                        ));
+                    }
+                }
+            }
+        }
+    }
+
+    // document symbols (flat SymbolInformation or nested DocumentSymbol)
+    fn sym_ranges(v: &Value, out: &mut Vec<(String, Value)>) {
+        if let Some(a) = v.as_array() {
+            for s in a {
+                let name = s["name"].as_str().unwrap_or("").to_string();
+                if let Some(r) = s.get("location").and_then(|l| l.get("range")) {
+                    out.push((name.clone(), r.clone()));
+                }
+                if let Some(r) = s.get("range") {
+                    out.push((name.clone(), r.clone()));
+                }
+                if let Some(r) = s.get("selectionRange") {
+                    out.push((name.clone(), r.clone()));
+                }
+                if let Some(c) = s.get("children") {
+                    sym_ranges(c, out);
+                }
+            }
+        }
+    }
+    let mut sr = Vec::new();
+    sym_ranges(&ans.r[2], &mut sr);
+    for (name, r) in sr {
+        let (Some(s), Some(e)) = (get_pos(&r["start"]), get_pos(&r["end"])) else { continue };
+        let ok = starts.contains_key(&s) && ends.contains_key(&e);
+        if !ok {
+            let f = text_feature_for_line(text, &lines, if starts.contains_key(&s) { e.0 } else { s.0 });
+            out.push((
+                "symbol-range".into(),
+                f.into(),
+                format!("symbol {name:?} reported at {}:{}-{}:{}, which is not the UTF-16 position of a token start/end of the text", s.0, s.1, e.0, e.1),
+            ));
+            break;
+        }
+    }
+
+    // formatting: one edit from 0:0 reaching the last line = whole-document replacement
+    if let Some(edits) = ans.r[0].as_array() {
+        if edits.len() == 1 {
+            let r = &edits[0]["range"];
+            if let (Some(s), Some(e)) = (get_pos(&r["start"]), get_pos(&r["end"])) {
+                let last = lines.len() as u32 - 1;
+                let eof = off_to_pos(text, &lines, text.len());
+                // violated only if the edit stops strictly before the end of the editor's text
+                if s == (0, 0) && (e.0 >= last || has_lone_cr(text)) && e < eof {
+                    let f = text_feature_for_line(text, &lines, last);
+                    out.push((
+                        "format-end".into(),
+                        f.into(),
+                        format!("whole-document formatting edit ends at {}:{} but the document ends at {}:{}", e.0, e.1, eof.0, eof.1),
+                    ));
+                }
+            }
+        }
+    }
+
+    // diagnostics: parser errors are reported with their message; their range must be the
+    // UTF-16 image of the parser's byte range
+    if let Some(items) = ans.r[3].get("items").and_then(Value::as_array) {
+        let parsed = parse(text);
+        let mut by_msg: HashMap<&str, Vec<((u32, u32), (u32, u32), usize)>> = HashMap::new();
+        for e in parsed.errors() {
+            let st = u32::from(e.range.start()) as usize;
+            let en = u32::from(e.range.end()) as usize;
+            if st > text.len() || en > text.len() || !text.is_char_boundary(st) || !text.is_char_boundary(en) {
+                continue;
+            }
+            by_msg.entry(e.message.as_str()).or_default().push((
+                off_to_pos(text, &lines, st),
+                off_to_pos(text, &lines, en),
+                st,
+            ));
+        }
+        for (msg, exp) in by_msg {
+            let got: Vec<((u32, u32), (u32, u32))> = items
+                .iter()
+                .filter(|d| d["message"].as_str() == Some(msg))
+                .filter_map(|d| Some((get_pos(&d["range"]["start"])?, get_pos(&d["range"]["end"])?)))
+                .collect();
+            if got.len() != exp.len() {
+                continue; // filtered / merged by the server: no 1:1 correspondence to demand
+            }
+            let mut g = got.clone();
+            g.sort();
+            let mut x: Vec<_> = exp.iter().map(|t| (t.0, t.1)).collect();
+            x.sort();
+            if g != x {
+                let k = (0..g.len()).find(|&i| g[i] != x[i]).unwrap_or(0);
+                let bad_line = if g[k].0 != x[k].0 { x[k].0 .0 } else { x[k].1 .0 };
+                let f = text_feature_for_line(text, &lines, bad_line);
+                out.push((
+                    "diag-range".into(),
+                    f.into(),
+                    format!("parse error {msg:?} reported at {}:{}-{}:{} but its byte range is {}:{}-{}:{} in UTF-16 positions", g[k].0 .0, g[k].0 .1, g[k].1 .0, g[k].1 .1, x[k].0 .0, x[k].0 .1, x[k].1 .0, x[k].1 .1),
+                ));
+                break;
+            }
+        }
+    }
+    out
+}
+
+// ---------------------------------------------------------------------------------------------
+// Evaluation of one history on the real server
+// ---------------------------------------------------------------------------------------------
+
+#[derive(Default)]
+struct Shared {
+    /// answers of a freshly opened document, per text (document B); value = answers
+    fresh: Mutex<HashMap<String, Arc<Answers>>>,
+    /// memo of counterfactual replays (blame analysis)
+    diverge_memo: Mutex<HashMap<String, bool>>,
+    histories_compared: AtomicU64,
+    fresh_opens: AtomicU64,
+    fresh_cache_hits: AtomicU64,
+    unstable: AtomicU64,
+    unreproduced_failures: AtomicU64,
+    position_texts: AtomicU64,
+    position_tokens_checked: AtomicU64,
+    nonempty_format: AtomicU64,
+    with_diagnostics: AtomicU64,
+    with_symbols: AtomicU64,
+}
+
+fn case_json(initial: &str, history: &[Vec<Change>]) -> Value {
+    json!({
+        "initial": initial,
+        "history": history.iter().map(|n| n.iter().map(Change::to_lsp).collect::<Vec<_>>()).collect::<Vec<_>>(),
+    })
+}
+
+fn describe_note(note: &[Change]) -> String {
+    let parts: Vec<String> = note
+        .iter()
+        .map(|c| match c {
+            Change::Range { sl, sc, el, ec, text } => format!("{sl}:{sc}-{el}:{ec}<-{text:?}"),
+            Change::Full { text } => format!("full<-{:?}", clip(text, 24)),
+        })
+        .collect();
+    format!("[{}]", parts.join(", "))
+}
+
+fn first_diff(a: &Answers, b: &Answers) -> (Vec<&'static str>, String) {
+    let mut which = Vec::new();
+    let mut detail = String::new();
+    for i in 0..5 {
+        if a.r[i] != b.r[i] {
+            if which.is_empty() {
+                detail = format!(
+                    "{}: incremental document answers {} but the editor's text answers {}",
+                    REQUESTS[i],
+                    clip(&a.r[i].to_string(), 160),
+                    clip(&b.r[i].to_string(), 160)
+                );
+            }
+            which.push(REQUESTS[i]);
+        }
+    }
+    (which, detail)
+}
+
+struct Eval {
+    /// the editor's text after the history (None: history outside the defined protocol)
+    text: Option<String>,
+    violations: Vec<Violation>,
+    /// a machinery problem (server cannot be started)
+    machinery: Option<String>,
+}
+
+fn fail_violation(f: &Fail, stage: &str, kind: &str, feat: &str, initial: &str, history: &[Vec<Change>]) -> Violation {
+    let (cl, what) = match f {
+        Fail::Timeout(m) => ("hang", format!("no answer to {m} within {}s", REQ_TIMEOUT.as_secs())),
+        Fail::Died(m) => ("server-died", format!("server process ended ({m})")),
+    };
+    Violation {
+        signature: format!("C14/{cl}/{stage}/{kind}/{feat}"),
+        what: format!("{what} while replaying {} notification(s) on {:?} (reproduced on a fresh server)", history.len(), clip(initial, 60)),
+        case: case_json(initial, history),
+    }
+}
+
+/// Answers of a document freshly opened with `text` (document B), cached per text. The position
+/// clause runs once per distinct text.
+fn fresh_answers(server: &mut Server, sh: &Shared, text: &str, viol: &mut Vec<Violation>) -> Result<Arc<Answers>, Fail> {
+    if let Some(b) = sh.fresh.lock().unwrap().get(text).cloned() {
+        sh.fresh_cache_hits.fetch_add(1, Ordering::Relaxed);
+        return Ok(b);
+    }
+    let b = Arc::new(observe_fresh(server, text)?);
+    sh.fresh_opens.fetch_add(1, Ordering::Relaxed);
+    let first = sh.fresh.lock().unwrap().insert(text.to_string(), Arc::clone(&b)).is_none();
+    if first {
+        sh.position_texts.fetch_add(1, Ordering::Relaxed);
+        let ntok = b.r[1].get("data").and_then(Value::as_array).map(|d| d.len() / 5).unwrap_or(0);
+        sh.position_tokens_checked.fetch_add(ntok as u64, Ordering::Relaxed);
+        if b.r[0].as_array().map(|e| !e.is_empty()).unwrap_or(false) {
+            sh.nonempty_format.fetch_add(1, Ordering::Relaxed);
+        }
+        if b.r[3].get("items").and_then(Value::as_array).map(|e| !e.is_empty()).unwrap_or(false) {
+            sh.with_diagnostics.fetch_add(1, Ordering::Relaxed);
+        }
+        if b.r[2].as_array().map(|e| !e.is_empty()).unwrap_or(false) {
+            sh.with_symbols.fetch_add(1, Ordering::Relaxed);
+        }
+        for (clause, f, what) in position_checks(text, &b) {
+            viol.push(Violation {
+                signature: format!("C14/position/{clause}/{f}"),
+                what: format!("{what}; text {:?}", clip(text, 80)),
+                case: case_json(text, &[]),
+            });
+        }
+    }
+    Ok(b)
+}
+
+/// `true` if `notes`, replayed on a document freshly opened with `before`, give answers that
+/// differ from those of a document opened with `after` (the editor's result). Memoised.
+fn diverges_from(server: &mut Server, sh: &Shared, before: &str, notes: &[Vec<Change>], after: &str, viol: &mut Vec<Violation>) -> Result<bool, Fail> {
+    let key = format!("{before}\u{0}{}", case_json("", notes)["history"]);
+    if let Some(&d) = sh.diverge_memo.lock().unwrap().get(&key) {
+        return Ok(d);
+    }
+    let a = observe_incremental(server, before, notes)?;
+    let b = fresh_answers(server, sh, after, viol)?;
+    let d = a != *b;
+    sh.diverge_memo.lock().unwrap().insert(key, d);
+    Ok(d)
+}
+
+/// Smallest discriminating cause of a confirmed divergence, found by counterfactual replays (run
+/// only on violations). A divergence need not be observable when it happens (e.g. a "\r\n" that
+/// silently became "\n" shows only after a later edit), so the culprit is searched for instead of
+/// assumed to be the last change:
+///  1. the culprit notification is the LAST one from which a replay on a fresh copy of the
+///     editor's text at that point still diverges (starting right after it does not);
+///  2. inside a batch: if the same changes sent as separate notifications do not diverge, batching
+///     itself is the cause (feature `batch`); otherwise the culprit change is found as in 1;
+///  3. a column past the end of a line is the cause only if the same change with the column
+///     clamped by the editor does not diverge.
+/// Returns (kind, feature, remark for the description).
+fn blame(
+    server: &mut Server,
+    sh: &Shared,
+    initial: &str,
+    history: &[Vec<Change>],
+    kind0: &str,
+    feat0: &str,
+    viol: &mut Vec<Violation>,
+) -> (String, String, String) {
+    let fallback = (kind0.to_string(), feat0.to_string(), String::new());
+    // editor texts before every unit of a sequence
+    fn befores_of(start: &str, units: &[Vec<Change>]) -> Option<Vec<String>> {
+        let mut out = vec![start.to_string()];
+        for n in units {
+            let mut t = out.last().unwrap().clone();
+            for c in n {
+                t = ed_apply(&t, c)?;
+            }
+            out.push(t);
+        }
+        Some(out)
+    }
+    // largest k such that replaying units[k..] on a fresh copy of the text before unit k diverges
+    fn culprit(server: &mut Server, sh: &Shared, start: &str, units: &[Vec<Change>], viol: &mut Vec<Violation>) -> Result<Option<usize>, Fail> {
+        let Some(bf) = befores_of(start, units) else { return Ok(None) };
+        let fin = bf.last().unwrap().clone();
+        for k in (0..units.len()).rev() {
+            if diverges_from(server, sh, &bf[k], &units[k..], &fin, viol)? {
+                return Ok(Some(k));
+            }
+        }
+        Ok(None)
+    }
+    let run = |server: &mut Server, viol: &mut Vec<Violation>| -> Result<(String, String, String), Fail> {
+        let Some(bf) = befores_of(initial, history) else { return Ok(fallback.clone()) };
+        let Some(k) = culprit(server, sh, initial, history, viol)? else { return Ok(fallback.clone()) };
+        let note = &history[k];
+        let before = &bf[k];
+        let rest = &history[k + 1..];
+        let fin = bf.last().unwrap();
+        let mut remark = String::new();
+        if k + 1 != history.len() {
+            remark = format!(" (latent: the divergence stems from notification #{} {}, it only became observable now)", k + 1, describe_note(note));
+        }
+        let (kind, mut feat) = notification_class(before, note);
+        let mut blamed_at = 0usize;
+        // units: the changes of the culprit notification one by one, then the rest as it was
+        let mut units: Vec<Vec<Change>> = note.iter().map(|c| vec![c.clone()]).collect();
+        units.extend(rest.iter().cloned());
+        let mut kind = kind;
+        if note.len() > 1 {
+            match culprit(server, sh, before, &units, viol)? {
+                None => {
+                    // a text whose line structure the server sees differently decides which
+                    // changes of a batch are resolvable at all
+                    feat = if has_lone_cr(before) { "lone-cr".into() } else { "batch".into() };
+                    remark.push_str(" (the same changes sent as separate notifications do not diverge)");
+                    return Ok((kind, feat, remark));
+                }
+                Some(j) if j < note.len() => {
+                    let ub = befores_of(before, &units).unwrap_or_default();
+                    let (k2, f2) = notification_class(&ub[j], &units[j]);
+                    kind = k2;
+                    feat = f2;
+                    blamed_at = j;
+                    remark.push_str(&format!(" (culprit change: {})", describe_note(&units[j])));
+                }
+                Some(_) => {}
+            }
+        }
+        if feat.starts_with("past-eol") {
+            let ub = befores_of(before, &units).unwrap_or_default();
+            if let Some(t) = ub.get(blamed_at) {
+                let clamped = clamp_note(t, &units[blamed_at]);
+                let mut u2: Vec<Vec<Change>> = units[blamed_at..].to_vec();
+                u2[0] = clamped.clone();
+                if diverges_from(server, sh, t, &u2, fin, viol)? {
+                    feat = notification_class(t, &clamped).1;
+                }
+            }
+        }
+        Ok((kind, feat, remark))
+    };
+    match run(server, viol) {
+        Ok(r) => r,
+        Err(_) => {
+            server.broken = true;
+            fallback
+        }
+    }
+}
+
+/// Replays one history (document A), obtains document B, compares, and runs the position clause
+/// on every text seen for the first time.
+fn evaluate(pool: &Pool, sh: &Shared, initial: &str, history: &[Vec<Change>]) -> Eval {
+    let mut ev = Eval { text: None, violations: Vec::new(), machinery: None };
+    // reference editor
+    let mut cur = initial.to_string();
+    let mut before_last = initial.to_string();
+    for note in history {
+        before_last = cur.clone();
+        for ch in note {
+            match ed_apply(&cur, ch) {
+                Some(n) => cur = n,
+                None => return ev,
+            }
+        }
+    }
+    let (kind, feat) = match history.last() {
+        Some(n) => notification_class(&before_last, n),
+        None => ("open".to_string(), "plain".to_string()),
+    };
+    let mut server = match pool.get() {
+        Ok(s) => s,
+        Err(e) => {
+            ev.machinery = Some(e);
+            return ev;
+        }
+    };
+    // a failure (hang / death) is attributed to the history only if a fresh server fails too
+    macro_rules! on_fail {
+        ($f:expr, $stage:expr, $retry:expr) => {{
+            let f: Fail = $f;
+            drop(server);
+            match Server::spawn() {
+                Err(e) => ev.machinery = Some(e),
+                Ok(mut fresh) => {
+                    let again: Result<Answers, Fail> = $retry(&mut fresh);
+                    match again {
+                        Err(_) => ev.violations.push(fail_violation(&f, $stage, &kind, &feat, initial, history)),
+                        Ok(_) => {
+                            sh.unreproduced_failures.fetch_add(1, Ordering::Relaxed);
+                        }
+                    }
+                }
+            }
+            return ev;
+        }};
+    }
+    let a = match observe_incremental(&mut server, initial, history) {
+        Ok(a) => a,
+        Err(f) => on_fail!(f, "incremental", |s: &mut Server| observe_incremental(s, initial, history)),
+    };
+    let b: Arc<Answers> = match fresh_answers(&mut server, sh, &cur, &mut ev.violations) {
+        Ok(b) => b,
+        Err(f) => on_fail!(f, "open", |s: &mut Server| observe_fresh(s, &cur)),
+    };
+    sh.histories_compared.fetch_add(1, Ordering::Relaxed);
+    ev.text = Some(cur.clone());
+    if a != *b {
+        // confirm on fresh URIs: both sides must answer the same again
+        let a2 = match observe_incremental(&mut server, initial, history) {
+            Ok(a) => a,
+            Err(f) => on_fail!(f, "incremental", |s: &mut Server| observe_incremental(s, initial, history)),
+        };
+        let b2 = match observe_fresh(&mut server, &cur) {
+            Ok(b) => b,
+            Err(f) => on_fail!(f, "open", |s: &mut Server| observe_fresh(s, &cur)),
+        };
+        if a2 == a && b2 == *b {
+            let (which, detail) = first_diff(&a, &b);
+            let (kind, feat, note) = blame(&mut server, sh, initial, history, &kind, &feat, &mut ev.violations);
+            ev.violations.push(Violation {
+                signature: format!("C14/text/{kind}/{feat}"),
+                what: format!(
+                    "after notification {} applied to {:?} (editor now holds {:?}) the server's document differs from the editor's{note}: answers differ in {:?}; {detail}",
+                    history.last().map(|n| describe_note(n)).unwrap_or_default(),
+                    clip(&before_last, 70),
+                    clip(&cur, 70),
+                    which
+                ),
+                case: case_json(initial, history),
+            });
+        } else {
+            sh.unstable.fetch_add(1, Ordering::Relaxed);
+        }
+    }
+    pool.put(server);
+    ev
+}
+
+// ---------------------------------------------------------------------------------------------
+// Alphabet
+// ---------------------------------------------------------------------------------------------
+
+/// Initial texts: (family name, text). Small on purpose; every class of the property's quantifier.
+fn initial_texts() -> Vec<(&'static str, String)> {
+    vec![
+        ("ascii", "PROGRAM P\nVAR x:INT; y:INT; END_VAR\nEND_PROGRAM\n".to_string()),
+        ("latin1", "PROGRAM P\nVAR x:INT; (* é *) y:INT; END_VAR\nEND_PROGRAM\n".to_string()),
+        ("cjk", "(* 漢字 *) PROGRAM P\nVAR x:INT; END_VAR\nEND_PROGRAM\n".to_string()),
+        ("astral-comment", "PROGRAM P\nVAR x:INT; (* 😀 *) y:INT; END_VAR\nEND_PROGRAM\n".to_string()),
+        ("astral-string", "PROGRAM P\nVAR s:STRING := '😀'; y:INT; END_VAR\nEND_PROGRAM\n".to_string()),
+        ("crlf", "PROGRAM P\r\nVAR x:INT; y:INT; END_VAR\r\nEND_PROGRAM\r\n".to_string()),
+        ("mixed", "(* é😀漢 *) PROGRAM P\r\nVAR s:STRING := 'a😀'; // é\nEND_PROGRAM (* 😀 *)".to_string()),
+        ("empty", String::new()),
+        ("no-trailing-newline", "PROGRAM P\nVAR x:INT; END_VAR\nEND_PROGRAM".to_string()),
+        // classic-Mac line ends: LSP 3.17 lists "\r" as a line terminator (own family, own signatures)
+        ("lone-cr", "PROGRAM P\rVAR x:INT; y:INT; END_VAR\rEND_PROGRAM\r".to_string()),
+    ]
+}
+
+/// Texts used by full-document changes.
+fn full_texts() -> Vec<String> {
+    vec![
+        "PROGRAM Q\nEND_PROGRAM\n".to_string(),
+        "PROGRAM Q (* 😀 *)\r\nVAR z:INT; END_VAR\r\nEND_PROGRAM".to_string(),
+    ]
+}
+
+#[derive(Clone, Copy, PartialEq, Eq, Debug)]
+enum PosMode {
+    /// every UTF-16 character boundary of the line, and one column past its end
+    Full,
+    /// 0, 1, around every non-ASCII character, len-1, len, len+1
+    Key,
+    /// right after the first non-ASCII character (+1), or column 1; and the end of the line
+    Tiny,
+}
+
+#[derive(Clone, Copy, PartialEq, Eq, Debug)]
+enum RangeMode {
+    /// every (start <= end) pair of the position set
+    AllPairs,
+    /// empty ranges and pairs of neighbouring positions
+    InsAdj,
+}
+
+#[derive(Clone, Debug)]
+struct Alpha {
+    pos: PosMode,
+    window: usize,
+    ranges: RangeMode,
+    reps: Vec<&'static str>,
+}
+
+fn line_is_interesting(text: &str, l: &Line) -> bool {
+    !text[l.start..l.end].is_ascii()
+}
+
+/// Positions (line, col), sorted, of the window of lines.
+fn positions(text: &str, a: &Alpha) -> Vec<(u32, u32)> {
+    let lines = lines_of(text);
+    let n = lines.len();
+    let first = lines.iter().position(|l| line_is_interesting(text, l)).unwrap_or(0);
+    let w = a.window.min(n);
+    let lo = first.min(n - w);
+    let mut out: Vec<(u32, u32)> = Vec::new();
+    for (li, l) in lines.iter().enumerate().skip(lo).take(w) {
+        let body = &text[l.start..l.end];
+        let len = utf16_len(body);
+        let mut cols: Vec<u32> = Vec::new();
+        match a.pos {
+            PosMode::Full => {
+                cols.extend(0..=len + 1);
+            }
+            PosMode::Key => {
+                cols.extend([0, 1, len.saturating_sub(1), len, len + 1]);
+                let mut u = 0u32;
+                for c in body.chars() {
+                    let cu = c.len_utf16() as u32;
+                    if !c.is_ascii() {
+                        cols.extend([u, u + cu, u + cu + 1]);
+                    }
+                    u += cu;
+                }
+            }
+            PosMode::Tiny => {
+                let mut u = 0u32;
+                let mut found = false;
+                for c in body.chars() {
+                    let cu = c.len_utf16() as u32;
+                    if !c.is_ascii() {
+                        cols.extend([u + cu, u + cu + 1]);
+                        found = true;
+                        break;
+                    }
+                    u += cu;
+                }
+                if !found {
+                    cols.push(1);
+                }
+                cols.push(len);
+            }
+        }
+        for c in cols {
+            // keep columns on a character boundary; only ONE column past the end of the line
+            if c <= len + 1 && (c > len || pos_to_off(text, &lines, li as u32, c).is_some()) {
+                if c > len && a.pos == PosMode::Tiny {
+                    continue;
+                }
+                out.push((li as u32, c));
+            }
+        }
+    }
+    // end of the document, always
+    let last = &lines[n - 1];
+    out.push((n as u32 - 1, utf16_len(&text[last.start..last.end])));
+    out.sort();
+    out.dedup();
+    out
+}
+
+/// Single range changes on `text`, simplest first (inserts before replacements, then by
+/// replacement, then by position).
+fn range_changes(text: &str, a: &Alpha) -> Vec<Change> {
+    let ps = positions(text, a);
+    let mut pairs: Vec<((u32, u32), (u32, u32))> = Vec::new();
+    for (i, p) in ps.iter().enumerate() {
+        pairs.push((*p, *p));
+        match a.ranges {
+            RangeMode::AllPairs => {
+                for q in &ps[i + 1..] {
+                    pairs.push((*p, *q));
+                }
+            }
+            RangeMode::InsAdj => {
+                if let Some(q) = ps.get(i + 1) {
+                    pairs.push((*p, *q));
+                }
+            }
+        }
+    }
+    let mut out = Vec::new();
+    for empty_first in [true, false] {
+        for rep in &a.reps {
+            for (s, e) in &pairs {
+                if (s == e) != empty_first {
+                    continue;
+                }
+                if s == e && rep.is_empty() {
+                    continue; // no-op
+                }
+                out.push(Change::Range { sl: s.0, sc: s.1, el: e.0, ec: e.1, text: rep.to_string() });
+            }
+        }
+    }
+    out
+}
+
+#[derive(Clone, Debug)]
+struct Level {
+    single: Alpha,
+    /// alphabet of both halves of two-change notifications (None = no such notifications)
+    multi: Option<Alpha>,
+    /// full-text changes, alone and combined with a `multi` range change before/after
+    full: bool,
+}
+
+/// All notifications enabled on `text` at one level.
+fn notifications(text: &str, lvl: &Level) -> Vec<Vec<Change>> {
+    let mut out: Vec<Vec<Change>> = Vec::new();
+    for c in range_changes(text, &lvl.single) {
+        out.push(vec![c]);
+    }
+    if lvl.full {
+        for t in full_texts() {
+            out.push(vec![Change::Full { text: t }]);
+        }
+    }
+    if let Some(m) = &lvl.multi {
+        let firsts = range_changes(text, m);
+        for c1 in &firsts {
+            let Some(t1) = ed_apply(text, c1) else { continue };
+            for c2 in range_changes(&t1, m) {
+                out.push(vec![c1.clone(), c2]);
+            }
+        }
+        if lvl.full {
+            for t in full_texts() {
+                for c1 in &firsts {
+                    out.push(vec![c1.clone(), Change::Full { text: t.clone() }]);
+                }
+                for c2 in range_changes(&t, m) {
+                    out.push(vec![Change::Full { text: t.clone() }, c2]);
+                }
+            }
+        }
+    }
+    out
+}
+
+#[derive(Clone, Debug, PartialEq, Eq, Hash)]
+enum Ev {
+    Open(usize),
+    Note(Vec<Change>),
+}
+
+fn split_history(texts: &[(&'static str, String)], h: &[Ev]) -> Option<(String, Vec<Vec<Change>>)> {
+    let Some(Ev::Open(i)) = h.first() else { return None };
+    let notes = h[1..]
+        .iter()
+        .filter_map(|e| match e {
+            Ev::Note(n) => Some(n.clone()),
+            Ev::Open(_) => None,
+        })
+        .collect();
+    Some((texts[*i].1.clone(), notes))
+}
+
+fn model_text(initial: &str, notes: &[Vec<Change>]) -> Option<String> {
+    let mut cur = initial.to_string();
+    for n in notes {
+        for c in n {
+            cur = ed_apply(&cur, c)?;
+        }
+    }
+    Some(cur)
+}
+
+struct Family {
+    name: &'static str,
+    /// levels[d] = alphabet of the (d+1)-th notification
+    levels: Vec<Level>,
+}
+
+fn alpha(pos: PosMode, window: usize, ranges: RangeMode, reps: &[&'static str]) -> Alpha {
+    Alpha { pos, window, ranges, reps: reps.to_vec() }
+}
+
+const REPS_ALL: [&str; 6] = ["", "x", "é", "😀", "\n", "\r\n"];
+const REPS_SMALL: [&str; 4] = ["", "x", "😀", "\n"];
+const REPS_TINY: [&str; 3] = ["", "x", "😀"];
+
+fn families(tier: Tier) -> Vec<Family> {
+    let tiny = |reps: &[&'static str]| alpha(PosMode::Tiny, 2, RangeMode::InsAdj, reps);
+    match tier {
+        Tier::Quick => vec![
+            Family {
+                name: "wide",
+                levels: vec![Level {
+                    single: alpha(PosMode::Key, 2, RangeMode::AllPairs, &REPS_ALL),
+                    multi: Some(alpha(PosMode::Tiny, 1, RangeMode::InsAdj, &REPS_TINY)),
+                    full: true,
+                }],
+            },
+            Family {
+                name: "deep",
+                levels: vec![
+                    Level { single: tiny(&REPS_SMALL), multi: None, full: true },
+                    Level { single: tiny(&REPS_TINY), multi: None, full: true },
+                ],
+            },
+        ],
+        Tier::Thorough => vec![
+            Family {
+                name: "wide",
+                levels: vec![Level {
+                    single: alpha(PosMode::Full, 3, RangeMode::AllPairs, &REPS_ALL),
+                    multi: Some(alpha(PosMode::Key, 2, RangeMode::InsAdj, &REPS_SMALL)),
+                    full: true,
+                }],
+            },
+            Family {
+                name: "deep",
+                levels: vec![
+                    Level { single: alpha(PosMode::Key, 2, RangeMode::InsAdj, &REPS_SMALL), multi: None, full: true },
+                    Level { single: tiny(&REPS_SMALL), multi: None, full: true },
+                    Level { single: alpha(PosMode::Tiny, 1, RangeMode::InsAdj, &REPS_TINY), multi: None, full: false },
+                ],
+            },
+        ],
+    }
+}
+
+// ---------------------------------------------------------------------------------------------
+// Engine entry points
+// ---------------------------------------------------------------------------------------------
+
+pub fn run(ctx: &Ctx) -> EngineResult {
+    quiet_panics();
+    let mut rep = Report::new("model_checking");
+    if !std::path::Path::new(&lsp_bin()).exists() {
+        return machinery(format!("language server binary {} not found (build: cd /repo && cargo build --offline -p trust-lsp --bin trust-lsp, or set TV_LSP_BIN)", lsp_bin()));
+    }
+    let budget = ctx.tier.pick(38u64, 840u64);
+    let t0 = Instant::now();
+    let texts = initial_texts();
+    let pool = Pool::new();
+    let sh = Shared::default();
+    let mach: Mutex<Option<String>> = Mutex::new(None);
+
+    // calibration: the same text opened under two URIs must give the same answers, else the
+    // comparison A/B is unsound (URI or timing dependence) — machinery failure, not a verdict
+    {
+        let mut s = Server::spawn().map_err(Machinery)?;
+        for (name, t) in &texts {
+            let a = observe_fresh(&mut s, t).map_err(|f| Machinery(format!("calibration on {name}: {f:?}")))?;
+            let b = observe_fresh(&mut s, t).map_err(|f| Machinery(format!("calibration on {name}: {f:?}")))?;
+            if a != b {
+                let (w, d) = first_diff(&a, &b);
+                return machinery(format!("calibration: the same text ({name}) opened under two URIs answers differently in {w:?}: {d}"));
+            }
+        }
+        pool.put(s);
+    }
+
+    // measured alphabet sizes at the first level of every family (per initial text)
+    let mut sizes = Vec::new();
+    for fam in families(ctx.tier) {
+        for (name, t) in &texts {
+            let l = &fam.levels[0];
+            sizes.push(json!({
+                "family": fam.name,
+                "text": name,
+                "positions": positions(t, &l.single).len(),
+                "single_range_changes": range_changes(t, &l.single).len(),
+                "notifications": notifications(t, l).len(),
+            }));
+        }
+    }
+    rep.set("alphabet_sizes_level1", json!(sizes));
+    let mut states = 0u64;
+    let mut transitions = 0u64;
+    let mut exhaustive = true;
+    let mut all_violations: Vec<Violation> = Vec::new();
+    let mut depth_done: Vec<(String, usize)> = Vec::new();
+    for fam in families(ctx.tier) {
+        // the wide family may use at most 60% of the wall budget, the deep one the rest
+        let deadline = t0 + Duration::from_secs(if fam.name == "wide" { budget * 60 / 100 } else { budget });
+        let levels = &fam.levels;
+        let enabled = |h: &[Ev]| -> Vec<Ev> {
+            if h.is_empty() {
+                return (0..texts.len()).map(Ev::Open).collect();
+            }
+            let Some(lvl) = levels.get(h.len() - 1) else { return Vec::new() };
+            let Some((init, notes)) = split_history(&texts, h) else { return Vec::new() };
+            let Some(cur) = model_text(&init, &notes) else { return Vec::new() };
+            notifications(&cur, lvl).into_iter().map(Ev::Note).collect()
+        };
+        let eval = |h: &[Ev]| -> x2::StepResult<String> {
+            let Some((init, notes)) = split_history(&texts, h) else {
+                return x2::StepResult { key: Some("\u{0}root".to_string()), violations: Vec::new() };
+            };
+            let ev = evaluate(&pool, &sh, &init, &notes);
+            if let Some(m) = ev.machinery {
+                mach.lock().unwrap().get_or_insert(m);
+            }
+            // a diverged / failed state is not expanded: its successors would all be blamed on
+            // the same notification
+            let blocked = ev.violations.iter().any(|v| !v.signature.starts_with("C14/position/"));
+            x2::StepResult { key: if blocked { None } else { ev.text }, violations: ev.violations }
+        };
+        let st = x2::bfs(1 + levels.len(), ctx.threads, 2 << 20, Some(deadline), &enabled, &eval);
+        if let Some(m) = mach.lock().unwrap().take() {
+            return machinery(m);
+        }
+        eprintln!(
+            "[C14] family {}: states {} transitions {} depth {} frontier {:?} capped {} at {:.1}s",
+            fam.name, st.states, st.transitions, st.depth_completed, st.frontier_sizes, st.capped, ctx.elapsed()
+        );
+        states += st.states;
+        transitions += st.transitions;
+        depth_done.push((fam.name.to_string(), st.depth_completed.saturating_sub(1)));
+        if st.capped {
+            exhaustive = false;
+            rep.cap(format!("family {}: wall cap reached, depth completed {}", fam.name, st.depth_completed.saturating_sub(1)));
+        }
+        for h in st.sample_histories.iter().take(3) {
+            if let Some((init, notes)) = split_history(&texts, h) {
+                rep.sample(json!({"family": fam.name, "initial": clip(&init, 60), "history": notes.iter().map(|n| describe_note(n)).collect::<Vec<_>>()}));
+            }
+        }
+        all_violations.extend(st.violations);
+        rep.set(&format!("frontier_sizes_{}", fam.name), json!(st.frontier_sizes));
+    }
+    // keep the simplest case per signature: fewest notifications, fewest changes, shortest texts
+    all_violations.sort_by_key(|v| {
+        let h = v.case["history"].as_array().cloned().unwrap_or_default();
+        let changes: usize = h.iter().map(|n| n.as_array().map(|a| a.len()).unwrap_or(0)).sum();
+        (h.len(), changes, v.case.to_string().len())
+    });
+    rep.set("histories_diverged", all_violations.iter().filter(|v| v.signature.starts_with("C14/text/")).count() as u64);
+    rep.set("position_violations_reported", all_violations.iter().filter(|v| v.signature.starts_with("C14/position/")).count() as u64);
+    rep.violations_from(all_violations);
+    let compared = sh.histories_compared.load(Ordering::Relaxed);
+    if compared < 100 {
+        return machinery(format!("only {compared} histories were compared: exploration vacuous"));
+    }
+    let g = |a: &AtomicU64| a.load(Ordering::Relaxed);
+    if g(&sh.nonempty_format) == 0 || g(&sh.with_symbols) == 0 || g(&sh.position_tokens_checked) == 0 {
+        return machinery("the server returned no formatting edit / no symbol / no semantic token on any text: observation vacuous");
+    }
+    rep.set("states", states);
+    rep.set("transitions", transitions);
+    rep.set("traces_validated_against_impl", compared);
+    rep.set("depth_completed", json!(depth_done.iter().map(|(n, d)| json!({"family": n, "notifications": d})).collect::<Vec<_>>()));
+    rep.set("initial_texts", texts.len() as u64);
+    rep.set("distinct_editor_texts", g(&sh.position_texts));
+    rep.set("fresh_document_opens", g(&sh.fresh_opens));
+    rep.set("fresh_document_cache_hits", g(&sh.fresh_cache_hits));
+    rep.set("texts_with_formatting_edit", g(&sh.nonempty_format));
+    rep.set("texts_with_symbols", g(&sh.with_symbols));
+    rep.set("texts_with_diagnostics", g(&sh.with_diagnostics));
+    rep.set("semantic_tokens_position_checked", g(&sh.position_tokens_checked));
+    rep.set("unstable_mismatches_discarded", g(&sh.unstable));
+    rep.set("unreproduced_server_failures", g(&sh.unreproduced_failures));
+    rep.set("servers_spawned", pool.spawned.load(Ordering::Relaxed) + 1);
+    rep.set("server_binary", lsp_bin());
+    rep.set("exhaustive", exhaustive);
+    if g(&sh.unstable) > 0 {
+        rep.cap(format!("{} mismatches did not reproduce on a second replay and were discarded", g(&sh.unstable)));
+    }
+    rep.assume("a request sent after a notification on the same connection is answered from the state after that notification (tower-lsp polls handlers in arrival order; didChange updates the document before its first await)");
+    rep.assume("states with equal editor text and equal answers are merged; a state whose answers already diverged is not expanded");
+    rep.assume("position clause: a semantic token stands for one lexer token, a symbol range runs from a token start to a token end, a single formatting edit from 0:0 to the last line replaces the whole document");
+    rep.assume("positions past the last line, inside a surrogate pair, and reversed ranges are not sent (undefined in LSP 3.17); a column past the end of a line is sent (defined: clamped)");
+    Ok(rep)
+}
+
+/// Re-executes one recorded case `{"initial": text, "history": [[contentChange,…],…]}` on a
+/// freshly started server.
+pub fn check_case(case: &Value) -> Vec<Violation> {
+    let initial = case["initial"].as_str().unwrap_or("").to_string();
+    let mut history: Vec<Vec<Change>> = Vec::new();
+    for n in case["history"].as_array().cloned().unwrap_or_default() {
+        let mut note = Vec::new();
+        for c in n.as_array().cloned().unwrap_or_default() {
+            match Change::from_lsp(&c) {
+                Some(c) => note.push(c),
+                None => return Vec::new(),
+            }
+        }
+        history.push(note);
+    }
+    let pool = Pool::new();
+    let sh = Shared::default();
+    let ev = evaluate(&pool, &sh, &initial, &history);
+    if let Some(m) = ev.machinery {
+        eprintln!("C14 replay: {m}");
+    }
+    ev.violations
 }
 
 pub fn workers() -> Vec<(&'static str, WorkerFn)> {
